@@ -13,6 +13,8 @@ meta = json.load(open(os.path.join(d, "meta.json")))
 md = open(os.path.join(d, "demo.md")).read()
 gofiles = [f for f in os.listdir(d) if f.endswith(".go")]
 demo_files = meta.get("demo_files")
+if demo_files and isinstance(demo_files[0], str):
+    demo_files = [{"src": os.path.basename(x), "dest": x} for x in demo_files if os.path.exists(os.path.join(d, os.path.basename(x)))] or None
 if not demo_files:
     demo_files = []
     for f in gofiles:
